@@ -1,5 +1,6 @@
 import UvModel.Lemmas.LoopTrace
 import UvModel.Lemmas.LoopRunInv
+import UvModel.Lemmas.LoopClose2
 /-!
   C02 — close protocol, over the LoopModel.  `tr s = (s.trace, s.ncbTotal)`: the event trace
   (callbacks, polls, op results) and the number of callbacks run so far.
@@ -28,51 +29,8 @@ example : let s0 := ([Op.init .idle, .start 2 0 0].foldl stepOp (initLoop 0 fals
     s.closing = [2] ∧ s.c.get 2 = some ⟨false, true, true, false, false⟩ ∧ s.c.ah = 0 ∧ s0.c.ah = 1 ∧
     s.trace.length = s0.trace.length := by decide
 
-/-- number of close callbacks delivered for handle `id` in a trace -/
-def closeCbs (id : Nat) : List Event → Nat
-  | [] => 0
-  | .cb _ .close i _ _ :: t => (if i = id then 1 else 0) + closeCbs id t
-  | _ :: t => closeCbs id t
-
-/-- number of callback events of any kind in a trace -/
-def cbEvents : List Event → Nat
-  | [] => 0
-  | .cb _ _ _ _ _ :: t => 1 + cbEvents t
-  | _ :: t => cbEvents t
-
-theorem closeCbs_emit_obs (id : Nat) (s : State) : closeCbs id (emitObs s).trace = closeCbs id s.trace := by
-  unfold emitObs emit; split <;> simp [closeCbs]
-
-theorem closeCbs_stepOp (id : Nat) (s : State) (o : Op) : closeCbs id (stepOp s o).trace = closeCbs id s.trace := by
-  unfold stepOp
-  rw [closeCbs_emit_obs]
-  have h := (no_op_is_reentrant s o).1
-  unfold emit
-  split
-  · exact congrArg _ h
-  · simp [closeCbs, h]
-
-theorem closeCbs_foldl (id : Nat) (ops : List Op) (s : State) :
-    closeCbs id (ops.foldl stepOp s).trace = closeCbs id s.trace := by
-  induction ops generalizing s with
-  | nil => rfl
-  | cons o t ih => simp only [List.foldl]; rw [ih, closeCbs_stepOp]
-
-/-- a callback invocation adds exactly its own `cb` event: one close callback for `id` iff it is the
-    close callback of `id`, whatever the script does inside -/
-theorem runCb_closeCbs (sc : Script) (ph : Phase) (k : CbKind) (key : CbKey) (i : Nat) (a b : Int) (occ : Nat)
-    (id : Nat) (s : State) (hh : s.halted = false) :
-    closeCbs id (runCb sc ph k key i a b occ s).trace =
-      closeCbs id s.trace + (if k = .close ∧ i = id then 1 else 0) := by
-  unfold runCb
-  simp only
-  rw [closeCbs_emit_obs]
-  have h1 : ∀ s' : State, closeCbs id (emit s' .endcb).trace = closeCbs id s'.trace := by
-    intro s'; unfold emit; split <;> simp [closeCbs]
-  rw [h1, closeCbs_foldl, closeCbs_emit_obs]
-  unfold emit
-  simp only [hh, Bool.false_eq_true, if_false]
-  cases k <;> simp [closeCbs] <;> (try (split <;> omega))
+/-! `closeCbs id tr` (number of close callbacks delivered for handle `id` in a trace) and its counting lemmas
+    (`runCb_closeCbs`, …) live in `Lemmas/LoopClose2.lean`. -/
 
 /-- `close_cb_exactly_once` (per delivery step): `uv__finish_close` of a present handle without attached requests (not udp / stream) is exactly
     *one* close callback for that handle, invoked on a state from which the handle's record has already been
@@ -112,9 +70,75 @@ theorem finishClose_absent (sc : Script) (id : Nat) (s : State) (hg : getH s id 
 theorem runClosing_detaches (sc : Script) (s : State) :
     runClosing sc s = runClosingLoop sc (s.closing.length + 1) { s with closingLocal := s.closing, closing := [] } := rfl
 
+/-- the statement as first written: with only the accounting invariant `SInv` as hypothesis -/
 def close_cb_exactly_once_statement : Prop :=
   ∀ (sc : Script) (s : State) (id : Nat), SInv s → id ∈ s.closing → s.halted = false →
     closeCbs id (runClosing sc s).trace = closeCbs id s.trace + 1
+
+/-- … is false of the model for states no program can reach: `SInv` does not say that a queued id has a record -/
+theorem close_cb_exactly_once_statement_false : ¬ close_cb_exactly_once_statement := by
+  intro h
+  have := h (fun _ _ _ => []) { closing := [5] } 5 ⟨⟨rfl, by intro e he; cases he⟩, by intro e he; cases he⟩
+    (by simp) rfl
+  revert this; decide
+
+/-- `close_cb_exactly_once`: in every state satisfying the close bookkeeping invariant `CloseWF` (closing lists
+    duplicate-free, members are live records with UV_HANDLE_CLOSING — it holds in every reachable state, see
+    `closeWF_reachable`), the closing phase delivers exactly one close callback to every handle queued in
+    `closing_handles`, none to any other handle, whatever the callbacks do (close further handles, …) — and the
+    invariant holds again afterwards. -/
+theorem close_cb_exactly_once (sc : Script) (s : State) (id : Nat) (hw : CloseWF s) (hh : s.halted = false) :
+    closeCbs id (runClosing sc s).trace = closeCbs id s.trace + (if id ∈ s.closing then 1 else 0) ∧
+    CloseWF (runClosing sc s) :=
+  runClosing_spec sc id s hw hh
+
+/-- the invariant holds after every program, for every script and poller behaviour -/
+theorem closeWF_reachable (sc : Script) (fuel clock0 : Nat) (metrics : Bool) (oracle : List PollRes) (prog : List MainOp) :
+    CloseWF (runMain sc fuel (initLoop clock0 metrics oracle) prog) :=
+  closeWF_runMain sc fuel prog _ (closeWF_initLoop clock0 metrics oracle)
+
+/-- … and inside callbacks: after every API call and callback -/
+theorem closeWF_in_callbacks (s : State) (hw : CloseWF s) :
+    (∀ o, CloseWF (stepOp s o)) ∧ (∀ sc ph k key id a b occ, CloseWF (runCb sc ph k key id a b occ s)) :=
+  ⟨fun o => (WFStep.stepOp s o).1 _ hw, fun sc ph k key id a b occ => (WFStep.runCb sc ph k key id a b occ s).1 _ hw⟩
+
+/-- a handle enters `closing_handles` once: a legal `uv_close` pushes a handle that was not queued, and a
+    second `uv_close` of the same handle is outside `Legal` (libuv asserts `!uv__is_closing(handle)`) -/
+theorem close_enqueues_once (s : State) (id : Nat) (h : Handle) (f : HFlags) (hw : CloseWF s) (hc : s.closed = false)
+    (hg : getHF s id = some (h, f)) (hi : f.internal = false) (hcl : hClosing f = false) :
+    (applyOp s (.close id)).1.closing = id :: s.closing ∧ id ∉ s.closingLocal ++ s.closing ∧
+    (applyOp (applyOp s (.close id)).1 (.close id)).2 = none := by
+  have hnot : id ∉ s.closingLocal ++ s.closing := by
+    intro hm
+    obtain ⟨_, g, hg', hgc⟩ := hw.2 id (by simpa [clList] using hm)
+    rw [getHF_getF hg] at hg'; cases hg'
+    simp [hClosing, isClosing, toHK, hgc] at hcl
+  have h1 : (applyOp s (.close id)).1 = closeH s h.kind id := by
+    simp [applyOp, hc, hg, hi, hcl, ok]
+  refine ⟨by rw [h1]; show id :: (closeKind (withKernel s id setClosing) h.kind id).closing = _; rw [(keepQ_closeKind _ _ _).1.closing]; rfl, hnot, ?_⟩
+  have hw' : CloseWF (applyOp s (.close id)).1 := (WFStep.of_opRes (applyOp_keep s (.close id))).1 _ hw
+  rw [h1] at hw' ⊢
+  obtain ⟨hm, g, hg', hgc⟩ := hw'.2 id (by simp [clList, closeH, makeClosePending])
+  unfold applyOp
+  split
+  · rfl
+  · simp only
+    cases hh : getHF (closeH s h.kind id) id with
+    | none => rfl
+    | some p =>
+      obtain ⟨h2, f2⟩ := p
+      rw [getHF_getF hh] at hg'; cases hg'
+      simp [hClosing, isClosing, toHK, hgc, illegal]
+
+/-- a queued close, further closes from inside the close callbacks: every handle exactly one close callback,
+    the second batch in the next closing phase -/
+example :
+    let s0 := ([Op.init .idle, .init .timer, .init .udp, .close 2, .close 4].foldl stepOp (initLoop 0 false []))
+    let sc : Script := fun key _ _ => if key = .c 4 then [.close 3, .close 4] else []
+    let s1 := runClosing sc s0
+    let s2 := runClosing sc s1
+    s0.closing = [4, 2] ∧ s1.closing = [3] ∧ (closeCbs 2 s1.trace, closeCbs 3 s1.trace, closeCbs 4 s1.trace) = (1, 0, 1) ∧
+    (closeCbs 2 s2.trace, closeCbs 3 s2.trace, closeCbs 4 s2.trace) = (1, 1, 1) ∧ s2.closing = [] := by decide
 
 def reqs_before_close_cb_statement : Prop :=
   ∀ (sc : Script) (s : State) (id r : Nat), id ∈ s.closing → ({ id := r, kind := .udpSend id } : Req) ∈ s.reqs →
